@@ -9,7 +9,8 @@
    `observe fuel h v` is the deep snapshot of a value (elements, entries, keys, order) to depth `fuel`. *)
 From Coq Require Import ZArith NArith Bool List.
 From PcoreV Require Import Model.Base Model.Heap Model.Coll Model.CollHeap
-     Proofs.HeapProofs Proofs.CollHeapProofs Proofs.CollHeapDecide Proofs.CollHeapFrame.
+     Proofs.HeapProofs Proofs.CollHeapProofs Proofs.CollHeapDecide Proofs.CollHeapFrame
+     Model.Ty Model.InferHeap Proofs.InferHeapProofs.
 Import ListNotations.
 
 (* No operation writes to a cell that existed before the operation: the store after a step is the store before
@@ -84,3 +85,96 @@ Example C08_uncapped_append_breaks_frame :
   observe obs_fuel (st_heap st1) (P (st_pool st1) 3) = PArr [PInt 1%Z; PInt 2%Z] /\
   observe obs_fuel (st_heap st2) (P (st_pool st2) 3) = PArr [PInt 1%Z; PInt 3%Z].
 Proof. exact uncapped_append_breaks_frame. Qed.
+
+(* ================================================================================================================
+   Results that are TYPES.  "Inferring its type" is one of the operations of the property, and the type object it
+   returns is a result obtained earlier (it is also what the value reports from then on: Array and Hash cache it).
+   The model (Model/InferHeap.v): the members of an Enum are a Go slice over a store of string arrays; commonType
+   evaluates append(ea.values, ...) on the members of its first operand - IN PLACE when they have spare capacity -,
+   utils.Unique copies, NewEnumType keeps the slice it is given; commonType returns an operand itself when it accepts
+   the other; Array / Hash values cache the inferred type per object.  A type history applies value constructions
+   (literals, wrapping of pool values - the same objects -, Add, At), inferences (PType), common types, parsed
+   Enums (with and without spare capacity) and type components to a pool of values and types.
+   `eobs h e` is the deep observation of a pool entry: the value tree, or the type with the members of every Enum
+   read through the store.  `ist_wf`: the slices of all pool types and cached types point into the store, and two of
+   them over the same backing array are the same slice. *)
+
+(* The invariant holds of the empty state and is kept by every history. *)
+Theorem C08_infer_wf_invariant :
+  forall g ops, ist_wf (fst (irun g iempty ops)).
+Proof. intros g ops. apply irun_wf, iempty_wf. Qed.
+Print Assumptions C08_infer_wf_invariant.
+
+Theorem C08_infer_wf_preserved :
+  forall g ops st, ist_wf st -> ist_wf (fst (irun g st ops)).
+Proof. intros g ops st. apply irun_wf. Qed.
+Print Assumptions C08_infer_wf_preserved.
+
+(* THE FRAME THEOREM FOR TYPES.  For every growth policy, every well-formed state and EVERY sequence of operations:
+   the deep observation of every entry of the pool - every value, and every type returned by an earlier inference,
+   common type or parse - is the same after the sequence as before (although the sequence may write into the
+   backing arrays of those types). *)
+Theorem C08_infer_frame :
+  forall (g : nat -> nat -> nat) (ops : list iop) (st : ist), ist_wf st ->
+  forall e : ient, In e (i_pool st) ->
+    eobs (i_heap (fst (irun g st ops))) e = eobs (i_heap st) e.
+Proof. exact infer_frame. Qed.
+Print Assumptions C08_infer_frame.
+
+(* The type a value reports: once an Array / Hash object has cached its inferred type it reports the same type
+   object after every further sequence of operations, and the contents of that type are unchanged. *)
+Theorem C08_cached_type_stable :
+  forall (g : nat -> nat -> nat) (ops : list iop) (st : ist), ist_wf st ->
+  forall (id : nat) (t : yty), clookup id (i_cache st) = Some t ->
+    clookup id (i_cache (fst (irun g st ops))) = Some t /\
+    tobs (i_heap (fst (irun g st ops))) t = tobs (i_heap st) t.
+Proof. exact cached_type_stable. Qed.
+Print Assumptions C08_cached_type_stable.
+
+(* In the terms of the harness: the observations of the entries of a history after ANY continuation are the
+   observations at the end of the history itself ... *)
+Theorem C08_infer_final_obs_stable :
+  forall g ops1 ops2,
+    firstn (length ops1) (ifinal (fst (irun g iempty (ops1 ++ ops2)))) = ifinal (fst (irun g iempty ops1)).
+Proof. exact ifinal_stable. Qed.
+Print Assumptions C08_infer_final_obs_stable.
+
+(* ... and the result of every step, as observed when the step returned, is its observation at the end. *)
+Theorem C08_infer_results_stable :
+  forall g ops,
+    Forall2 iout_matches (snd (irun g iempty ops)) (ifinal (fst (irun g iempty ops))).
+Proof. intros g ops. exact (iresults_stable g ops iempty iempty_wf). Qed.
+Print Assumptions C08_infer_results_stable.
+
+(* Non-vacuity: x = ['a','b','c'] nested in [x, ['y']] (built with Add) and in {f => x, s => ['z']}; the type of the
+   first container still has the member 'y' after the second inference; then a parsed Enum with one spare cell is
+   merged twice: the second merge overwrites the spare cell ('z' where 'y' was written) and no type sees it. *)
+Example C08_infer_nonvacuous :
+  let a := [97%N] in let b := [98%N] in let c := [99%N] in let y := [121%N] in let z := [122%N] in
+  let ops := [ILit (PArr [PStr a; PStr b; PStr c]); IWrapArr [0%nat]; ILit (PArr [PStr y]); IAdd 1 2; IPType 3;
+              ILit (PArr [PStr z]); IWrapHash [([102%N], 0%nat); ([115%N], 5%nat)]; IPType 6; IPType 3;
+              IEnumLit false [a; b] 1; ILit (PStr y); IPType 10; ILit (PStr z); IPType 12; ICommon 9 11; ICommon 9 13] in
+  let st := fst (irun grow_double iempty ops) in
+  nth 4%nat (ifinal st) (OV PNil) = OT (TArray (TArray (TEnum false [a; b; c; y]) 1 3) 2 2) /\
+  nth 7%nat (ifinal st) (OV PNil) = OT (THash (TEnum false [[102%N]; [115%N]]) (TArray (TEnum false [a; b; c; z]) 1 3) 2 2) /\
+  nth 8%nat (ifinal st) (OV PNil) = nth 4%nat (ifinal st) (OV PNil) /\
+  nth 9%nat (ifinal st) (OV PNil) = OT (TEnum false [a; b]) /\
+  nth 14%nat (ifinal st) (OV PNil) = OT (TEnum false [a; b; y]) /\
+  nth 15%nat (ifinal st) (OV PNil) = OT (TEnum false [a; b; z]) /\
+  (* the backing array of the parsed Enum: its spare cell was written twice *)
+  nth 8%nat (i_heap st) [] = [Some a; Some b; Some z].
+Proof. vm_compute. repeat split; reflexivity. Qed.
+
+(* Sensitivity: the model expresses the defect class.  With a utils.Unique that hands back its argument when nothing
+   was removed, the members of the merged Enum live in the spare capacity of the first operand and the next merge on
+   the same operand overwrites them: the frame does NOT hold (first two equations); with the code as it is, it does. *)
+Example C08_unique_shortcut_breaks_frame :
+  let a := [97%N] in let b := [98%N] in let y := [121%N] in let z := [122%N] in
+  let '(h0, s) := halloc ([] : sstore) [a; b] 3 in
+  let '(h1, c1) := enum_merge_shortcut (fun _ n => n) h0 s [y] false in
+  let '(h2, c2) := enum_merge_shortcut (fun _ n => n) h1 s [z] false in
+  tobs h1 c1 = TEnum false [a; b; y] /\ tobs h2 c1 = TEnum false [a; b; z] /\
+  let '(k1, d1) := enum_merge (fun _ n => n) h0 s [y] false in
+  let '(k2, d2) := enum_merge (fun _ n => n) k1 s [z] false in
+  tobs k1 d1 = TEnum false [a; b; y] /\ tobs k2 d1 = TEnum false [a; b; y] /\ tobs k2 d2 = TEnum false [a; b; z].
+Proof. exact unique_shortcut_breaks_frame. Qed.
